@@ -18,7 +18,7 @@ EXPLANATION = (
     'to that line\'s own zone; C05.3 constructor/creation guards (address width, inversion, duplicate name, '
     'containment in GLOBAL) dominate the insertion and their exceptions are turned into exits; C05.4 `.org` value '
     'provenance (absolute vs zone-relative, GLOBAL bounds) and unknown zone rejection; C05.5 per-file zone state '
-    '(each file starts in GLOBAL, only zone directives change it, include leaves it alone). Not decided: nothing '
+    '(each file starts in GLOBAL, only zone directives change it, include leaves it alone); C05.6 a line\'s zone is the zone current at that line: handed down unchanged at every call edge into a line factory or constructor, every statement factory is called directly, and no lambda, nested function or functools.partial captures the variable that zone directives re-assign. Not decided: nothing '
     'numeric beyond the linear guards; the evaluation of address expressions themselves (C07).'
 )
 ASSUMPTIONS = [
@@ -347,6 +347,28 @@ def zone_provenance(ctx):
                       'the zone handed down is the caller\'s current zone', f'{zp}={got}')
     if n < 12:
         ctx.err('zone-of-line:sites', '-', 'at least 12 hand-down sites', f'{n}')
+    # each statement factory is reached by an explicit call that hands the zone down (an indirect call - functools.partial, a
+    # table of bound callables - is not judged by the rule above, so it must not be the only way to a factory)
+    seen_callees = {o.key.split('->')[-1] for o in ctx.obligations if o.key.startswith('zone-of-line:') and '->' in o.key and o.status == 'pass'}
+    for want in ('LabelLine.factory', 'DirectiveLine.factory', 'EmbeddedString.factory', 'InstructionLine.factory', 'LineOjectFactory.parse_line',
+                 'PreprocessorLineFactory.parse_line', 'DataLine.factory'):
+        ctx.check(want in seen_callees, f'zone-of-line:called-directly:{want}', '-',
+                  f'{want} is called directly with the caller\'s current zone', 'no direct call site that hands the current zone down')
+    # the current zone is a variable that zone directives re-assign while a line (or file) is read: no closure, lambda or
+    # functools.partial captures it (the captured value would be the zone at capture time, not at the statement)
+    for fn in ctx.repo.all_functions():
+        rebinds = [n_ for n_ in ast.walk(fn.node) if isinstance(n_, ast.Assign) and any(isinstance(t, ast.Name) and t.id == 'current_memzone' for t in n_.targets)]
+        if not rebinds:
+            continue
+        for n_ in ast.walk(fn.node):
+            cap = None
+            if isinstance(n_, (ast.Lambda, ast.FunctionDef, ast.AsyncFunctionDef)) and n_ is not fn.node:
+                cap = n_
+            elif isinstance(n_, ast.Call) and unparse(n_.func) in ('partial', 'functools.partial', 'partialmethod', 'functools.partialmethod'):
+                cap = n_
+            if cap is not None and any(isinstance(x, ast.Name) and x.id == 'current_memzone' for x in ast.walk(cap)):
+                ctx.refute(f'zone-of-line:captured:{ctx.short(fn)}', fn.site(cap), 'the current zone is read where the statement is created, never captured earlier',
+                           f'{unparse(cap)[:100]} captures current_memzone, which {ctx.short(fn)} re-assigns at zone directives')
     init = ctx.repo.func('bespokeasm.assembler.line_object.LineObject.__init__')
     st = self_attr_stores(init.node, '_memzone')
     ctx.check(len(st) == 1 and unparse(st[0][2]) == 'memzone', 'zone-of-line:stored', init.site(), 'a line keeps the zone it was created in', '; '.join(unparse(x[0]) for x in st))
